@@ -240,12 +240,15 @@ Definition two63 : Z := 2 ^ 63.
 
 (* __init__(receive, first_event, content_length); first_event = None | dict with optional
    'body' and 'more_body' (a dict always carries 'type', so it is truthy) *)
+Definition first_chunk (first : option (option bytes * bool)) : bytes :=
+  match first with Some (Some b, _) => b | _ => [] end.
+
 Definition a_init (fixed : bool) (first : option (option bytes * bool)) (cl : option Z)
            (events : list event) : ast :=
-  let first_chunk := match first with Some (Some b, _) => b | _ => [] end in
+  let fc := first_chunk first in
   let b0 := match cl with
-            | None => first_chunk
-            | Some n => if len first_chunk >? n then takeZ n first_chunk else first_chunk
+            | None => fc
+            | Some n => if len fc >? n then takeZ n fc else fc
             end in
   let r0 := match cl with None => two63 | Some n => n - len b0 end in
   let r1 := match first with
@@ -255,7 +258,7 @@ Definition a_init (fixed : bool) (first : option (option bytes * bool)) (cl : op
   {| buf := b0; rem := r1; pos := if fixed then 0 else len b0;
      closed := false; started := false; gen := GNone;
      nt := {| evs := events; awaits := 0; disc := false; late := 0;
-              rcvd := len first_chunk; over := 0; climit := cl |} |}.
+              rcvd := len fc; over := 0; climit := cl |} |}.
 
 Definition a_eof (st : ast) : bool := negb (nonempty (buf st)) && (rem st =? 0).
 
